@@ -488,6 +488,47 @@ def _it_find(ex, c, a, d):
     return mk_option(False, None, d)
 
 
+def _it_filter(ex, c, a, d):
+    """Iterator::filter over a list iterator: the predicate is run on a reference to each item; a symbolic answer forks the path"""
+    from .exec import ENV_PASS
+    it = deref(ex, a[0])
+    if not _is_it(it):
+        return ENV_PASS
+    out = []
+    for x in _rest(ex, it):
+        r = ex.call_value(ex.top_frame, a[1], [ex.ctx.ref_to(x)], "bool")
+        if not isinstance(r, BoolV):
+            return ENV_PASS
+        if r.t if isinstance(r.t, bool) else ex.decide(r.t):
+            out.append(x)
+    return _owned(out)
+
+
+def _it_cloned(ex, c, a, d):
+    from .exec import ENV_PASS
+    it = deref(ex, a[0])
+    if not _is_it(it):
+        return ENV_PASS
+    return _owned([deref(ex, x) if isinstance(x, RefV) else x for x in _rest(ex, it)])
+
+
+def _it_peekable(ex, c, a, d):
+    from .exec import ENV_PASS
+    it = deref(ex, a[0])
+    return it if _is_it(it) else ENV_PASS
+
+
+def _it_peek(ex, c, a, d):
+    from .exec import ENV_PASS
+    it = deref(ex, a[0])
+    if not _is_it(it):
+        return ENV_PASS
+    rest = _rest(ex, it)
+    if not rest:
+        return mk_option(False, None, d)
+    return mk_option(True, ex.ctx.ref_to(rest[0]), d)
+
+
 def _it_rev(ex, c, a, d):
     from .exec import ENV_PASS
     it = deref(ex, a[0])
@@ -514,6 +555,10 @@ LIST_ADAPTORS2 = [
     (rx(r" as (?:std::iter::|core::iter::)?Iterator>::flat_map::<"), _it_flat_map),
     (rx(r" as (?:std::iter::|core::iter::)?Iterator>::flatten$"), _it_flatten),
     (rx(r" as (?:std::iter::|core::iter::)?Iterator>::find::<"), _it_find),
+    (rx(r" as (?:std::iter::|core::iter::)?Iterator>::filter::<"), _it_filter),
+    (rx(r" as (?:std::iter::|core::iter::)?Iterator>::cloned::<"), _it_cloned),
+    (rx(r" as (?:std::iter::|core::iter::)?Iterator>::peekable$"), _it_peekable),
+    (rx(r"^(?:std::iter::|core::iter::)?Peekable::<.*>::peek$"), _it_peek),
     (rx(r" as (?:std::iter::|core::iter::)?(?:DoubleEnded)?Iterator>::rev$"), _it_rev),
     (rx(r" as (?:std::iter::|core::iter::)?Iterator>::any::<"), _it_any),
     (rx(r" as (?:std::iter::|core::iter::)?Iterator>::enumerate$"), _it_enumerate),
